@@ -1,8 +1,193 @@
+/-
+Driver ops of property C09 (output backends, `LaTeXParser`, `Text.from_latex`).
+
+  render     {"tree": raw tree, "backend": "html"|"markdown"|"latex"|"plaintext", "observed": text|null}
+             out  = {"text": what the model of `build(tree).render(Backend())` returns} | "KeyError"
+             spec = the string of pairs the tree denotes, its plain text, the token-level rendering (latex, markdown)
+                    with the verdict of the token reader, and the spec *readers* applied to `observed` (the text the
+                    real backend produced): `htmlChars`, `Md.unescape`-free checks, brace depth
+  fromlatex  {"value": v, "decoded": codecs.decode(v, 'ulatex') as computed by the real codec, "observed": text|null}
+             out  = {"tree": normal-form tree, "latex": its rendering with the LaTeX backend} | {"error": [lineno, pos]}
+             spec = where the decoded value stops being balanced, its depth sequence, the depth sequence of `observed`
+  document   {"entries": [{"key", "label", "tree"}], "backend", "preamble", "encoding", "php_extra"}
+             out  = {"text": everything `write_to_stream` writes} | "KeyError"
+             spec = per entry the plain text
+
+Raw trees use the wire format of C08 (`Drv/C08.lean`).
+-/
 import PybtexModel.Drv.Json
+import PybtexModel.Drv.C08
+import PybtexModel.Spec.Backends
 open Lean
 namespace Pybtex.Drv.C09
+open Pybtex.RT Pybtex.Backends Pybtex.Spec
+
+def encode : Str → Str := Latex.latexcodecEncode
+
+def optStr (j : Json) (k : String) : Except String (Option Str) := do
+  match j.getObjVal? k with
+  | .error _ => pure none
+  | .ok .null => pure none
+  | .ok v => pure (some (← jsonToStr v))
+
+def optStrJ : Option Str → Json
+  | none => Json.null
+  | some s => strToJson s
+
+def backendOf (name : String) : Except String (RT.Backend Str) :=
+  match name with
+  | "html" => pure html
+  | "markdown" => pure markdown
+  | "latex" => pure (latex encode)
+  | "plaintext" => pure plaintext
+  | _ => throw s!"unknown backend {name}"
+
+def tokJ : RTok → Json
+  | .opn m o => arr [Json.str "o", C08.markupJ m, strToJson o]
+  | .cls m o => arr [Json.str "c", C08.markupJ m, strToJson o]
+  | .str s o => arr [Json.str "s", strToJson s, strToJson o]
+  | .sym n o => arr [Json.str "y", strToJson n, strToJson o]
+  | .lit o => arr [Json.str "l", strToJson o]
+
+def pairsJ (p : List (Char × Nat)) : Json :=
+  arr (p.map fun x => arr [strToJson [x.1], nat x.2])
+
+def optPairsJ : Option (List (Char × Nat)) → Json
+  | none => Json.null
+  | some p => pairsJ p
+
+/-- characters with the elements around them, runs of equal stacks grouped: `[[stack, "chars"], …]` -/
+def elemRuns : List (Char × List Str) → Option (List Str × Str) → List Json
+  | [], none => []
+  | [], some (st, cs) => [arr [strs st, strToJson cs.reverse]]
+  | (c, st) :: r, none => elemRuns r (some (st, [c]))
+  | (c, st) :: r, some (st', cs) =>
+    if st = st' then elemRuns r (some (st', c :: cs))
+    else arr [strs st', strToJson cs.reverse] :: elemRuns r (some (st, [c]))
+
+/-- the symbol table the plain text of a rendering is stated with: what the symbols *mean* for HTML (entities are
+read back as characters), the backend's own table for the others -/
+def symTable (name : String) : Str → Option Str :=
+  match name with
+  | "html" => Spec.symbolText
+  | "markdown" => fun n => Gen.mdSymbols.lookup n
+  | "latex" => fun n => Gen.latexSymbols.lookup n
+  | _ => fun n => Gen.plainSymbols.lookup n
+
+def stringParts : RT → List Str
+  | t => (go t [])
+where
+  go : RT → List Str → List Str
+    | .str s, acc => s :: acc
+    | .sym _, acc => acc
+    | .node _ ps, acc => goL ps acc
+  goL : List RT → List Str → List Str
+    | [], acc => acc
+    | p :: ps, acc => go p (goL ps acc)
+
+def urlsOf : RT → List Str
+  | t => (go t [])
+where
+  go : RT → List Str → List Str
+    | .str _, acc => acc
+    | .sym _, acc => acc
+    | .node (.href u _) ps, acc => u :: goL ps acc
+    | .node _ ps, acc => goL ps acc
+  goL : List RT → List Str → List Str
+    | [], acc => acc
+    | p :: ps, acc => go p (goL ps acc)
+
+def render (j : Json) : Except String Json := do
+  let raw ← C08.tree (← j.getObjVal? "tree")
+  let name ← (← j.getObjVal? "backend").getStr?
+  let b ← backendOf name
+  let observed ← optStr j "observed"
+  let t := build raw
+  let out : Json := match RT.render b t with
+    | none => Json.str "KeyError"
+    | some r => obj [("text", strToJson r)]
+  let f := sem [] raw
+  let toks : Option (List RTok) := match name with
+    | "latex" => RT.render (latexTok encode) t
+    | "markdown" => RT.render markdownTok t
+    | _ => none
+  let tokFields : List (String × Json) := match toks with
+    | none => []
+    | some l => [("tokens", arr (l.map tokJ)), ("tokens_flat", strToJson (RTok.flatten l)),
+                 ("tokens_read_ok", Json.bool (decide (RTok.read l = some f)))]
+  let obsFields : List (String × Json) := match observed with
+    | none => []
+    | some o =>
+      [("observed_balanced", Json.bool (balanced o)),
+       ("observed_depths_len", optJ nat ((Tex.depths o).map List.length))] ++
+      (if name == "html" then
+        [("observed_html_chars", optStrJ (htmlChars o)),
+         ("observed_html_runs", optJ (fun p => arr (elemRuns p none)) (Html.read o))]
+       else [])
+  let ss := stringParts t
+  pure (obj [("out", out),
+    ("spec", obj ([("sem", C08.flatJ f),
+      ("plain", optStrJ (plainText (symTable name) f)),
+      ("plain_elems", optJ (fun p => arr (elemRuns (p.map fun x => (x.1, x.2.map Html.elem)) none))
+          (plainPairs (symTable name) f)),
+      ("html_ok", Json.bool (raw.allKinds Html.kindOK)),
+      ("empty", Json.bool (len raw == 0)),
+      ("strings_balanced", Json.bool (ss.all fun s => balanced (encode s))),
+      ("urls_balanced", Json.bool ((urlsOf t).all balanced)),
+      ("md_strings", arr (ss.map fun s => arr [strToJson s, strToJson (s.flatMap (Md.escChar Md.escapable)),
+          Json.bool (Md.unescape Gen.mdSpecialChars (Markdown.formatStr s) == some s)]))]
+      ++ tokFields ++ obsFields))])
+
+def fromlatex (j : Json) : Except String Json := do
+  let v ← getStr j "value"
+  let d ← getStr j "decoded"
+  let observed ← optStr j "observed"
+  let r := fromLatex (fun _ => d) v
+  let out : Json := match r with
+    | .error (.unbalanced ln pos) => obj [("error", arr [nat ln, nat pos])]
+    | .ok t => obj [("tree", C08.treeJ t),
+        ("latex", match RT.render (latex encode) t with
+          | none => Json.str "KeyError"
+          | some s => strToJson s)]
+  let at_ := Tex.unbalancedAt d
+  let transparent := d.all fun c => c == '{' || c == '}' || (Latex.encodeChar c == ([c], false))
+  pure (obj [("out", out),
+    ("spec", obj ([("unbalanced_at", optJ nat at_),
+      ("lineno", optJ (fun p => nat (1 + Scanner.countNewlines (d.take p))) at_),
+      ("depths", optPairsJ (Tex.depths d)),
+      ("identity", Json.bool (d == v)),
+      ("transparent", Json.bool transparent)] ++
+      (match observed with
+       | none => []
+       | some o => [("observed_depths", optPairsJ (Tex.depths o))])))])
+
+def parseEntry (j : Json) : Except String FormattedEntry := do
+  let raw ← C08.tree (← j.getObjVal? "tree")
+  pure ⟨← getStr j "key", build raw, ← getStr j "label"⟩
+
+def document (j : Json) : Except String Json := do
+  let name ← (← j.getObjVal? "backend").getStr?
+  let entriesJ ← getArr j "entries"
+  let entries ← entriesJ.mapM parseEntry
+  let raws ← entriesJ.mapM fun e => do C08.tree (← e.getObjVal? "tree")
+  let preamble ← getStr j "preamble"
+  let encoding ← optStr j "encoding"
+  let php ← C08.optBool j "php_extra"
+  let o ← match name with
+    | "html" => pure (htmlOutput (match encoding with | some e => e | none => Gen.defaultEncoding))
+    | "markdown" => pure (markdownOutput (php == some true))
+    | "latex" => pure (latexOutput encode)
+    | "plaintext" => pure plaintextOutput
+    | _ => throw s!"unknown backend {name}"
+  let out : Json := match writeToStream o ⟨entries, preamble⟩ with
+    | .error .keyError => Json.str "KeyError"
+    | .ok s => obj [("text", strToJson s)]
+  pure (obj [("out", out),
+    ("spec", obj [("plain", arr (raws.map fun r => optStrJ (plainText (symTable name) (sem [] r)))),
+                  ("html_ok", Json.bool (raws.all fun r => r.allKinds Html.kindOK))])])
 
 /-- driver ops of this property: (op name, handler) -/
-def handlers : List (String × (Json → Except String Json)) := []
+def handlers : List (String × (Json → Except String Json)) :=
+  [("render", render), ("fromlatex", fromlatex), ("document", document)]
 
 end Pybtex.Drv.C09
